@@ -151,7 +151,7 @@ fn single(rep: &Reporter, g: &[f64]) {
     rep.count("single_order_triples", triples);
     // sorting, min, max never fail and agree with the numeric order
     let mut rng = SplitMix64::new(rep.seed).fork(0xC09);
-    for _ in 0..rep.tier.pick(500, 20_000) {
+    for _ in 0..rep.tier.pick(500, 5_000_000) {
         let len = rng.usize(12);
         let v: Vec<SingleObjective> = (0..len).map(|_| *rng.pick(&vals)).collect();
         rep.case();
@@ -304,7 +304,7 @@ fn multi(rep: &Reporter) {
         }
     }
     let mut rng = SplitMix64::new(rep.seed).fork(0xC09_3);
-    for _ in 0..rep.tier.pick(20_000, 1_000_000) {
+    for _ in 0..rep.tier.pick(20_000, 300_000_000) {
         let (a, b, c) = (rng.pick(&objs), rng.pick(&objs), rng.pick(&objs));
         triples += 1;
         if a.partial_cmp(b) == Some(Ordering::Less) && b.partial_cmp(c) == Some(Ordering::Less) && a.partial_cmp(c) != Some(Ordering::Less) {
@@ -321,7 +321,7 @@ fn main() {
     rep.rule("SingleObjective: construction over a grid of special doubles (zeros, subnormals, extremes, infinities, six NaN encodings) plus random bit patterns; all pairs and triples of the constructed values for cmp/eq/partial_cmp (numeric agreement, antisymmetry, transitivity); random slices through sort/min/max; every derived operator (+ - unary- on all pairs, * and / against 16 finite-or-+inf scalars) with the result classified. MultiObjective: construction, all pairs of all vectors of length 0..3 over a 7-value grid against a reference Pareto relation, equality agreement, antisymmetry, transitivity on all triples up to length 2 and sampled triples. distinct_nontrivial = distinct value pairs compared");
     rep.assume("scalars passed to * and / are finite or +inf (a NaN or -inf scalar is the caller's value, not the library's)");
     let mut rng = SplitMix64::new(rep.seed).fork(0xC09_1);
-    let g = grid(&mut rng, rep.tier.pick(30, 120));
+    let g = grid(&mut rng, rep.tier.pick(30, 600));
     rep.set("grid_size", json!(g.len()));
     single(&rep, &g);
     multi(&rep);
